@@ -12,6 +12,6 @@ sed -i 's#path = "/repo/avro"#path = "/tmp/vlead-repo/avro"#' /tmp/vlead/harness
 [ -f /tmp/vlead/harness/corpus_c17/Cargo.toml ] && sed -i 's#/repo/avro#/tmp/vlead-repo/avro#g' /tmp/vlead/harness/corpus_c17/Cargo.toml
 cd /tmp/vlead
 for id in "$@"; do
-  echo "=== $id against $(basename $(dirname $patch))/$(basename $patch)"
+  echo "=== $id against $patch"
   bin/check $id --tier ${TIER:-quick} 2>&1 | grep -v "^\[check\]" | cut -c1-260 | grep "VIOLATION\|^OK\|TOOL-ERROR\|KNOWN" | head -${LINES_SHOWN:-4}
 done
